@@ -461,7 +461,7 @@ var specChurn = pbt.Register(&pbt.Spec[UCase]{
 			Clearers: rapid.IntRange(1, 2).Draw(t, "clearers"), Clears: rapid.SampledFrom([]int{1500, 5000, 20000}).Draw(t, "clears"),
 			KeepLive: rapid.SampledFrom([]int{0, 2, 10}).Draw(t, "keep"), Procs: rapid.SampledFrom([]int{2, 3, 4, 4, 8, 16}).Draw(t, "procs")}
 	},
-	Run: RunChurn, Quick: 40, Thorough: 1500, Crashy: true, Retries: 50,
+	Run: RunChurn, Quick: 40, Thorough: 300, Crashy: true, Retries: 50,
 })
 
 func TestC09Churn(t *testing.T) { pbt.Check(t, specChurn) }
@@ -476,7 +476,7 @@ var specChurnFast = pbt.Register(&pbt.Spec[UCase]{
 			Clearers: rapid.IntRange(0, 2).Draw(t, "clearers"), Clears: rapid.SampledFrom([]int{5000, 50000}).Draw(t, "clears"),
 			KeepLive: rapid.SampledFrom([]int{2, 10, 50}).Draw(t, "keep"), Procs: rapid.SampledFrom([]int{4, 8}).Draw(t, "procs")}
 	},
-	Run: RunChurn, Quick: 8, Thorough: 200, Crashy: true, Retries: 30, CaseCPU: 300e9,
+	Run: RunChurn, Quick: 8, Thorough: 30, Crashy: true, Retries: 30, CaseCPU: 300e9,
 })
 
 func TestC09ChurnFast(t *testing.T) { pbt.Check(t, specChurnFast) }
